@@ -709,8 +709,6 @@ fn zero_tail_histories<TC: ModelCfg>() -> Vec<Vec<Batch>> {
 
 fn run_inner(args: &Args) -> i32 {
     let rep = Report::new("C19", &args.tier, "exploration");
-    // silence panic messages of the (caught) decoder panics
-    std::panic::set_hook(Box::new(|_| {}));
     let col = std::sync::Mutex::new(Collected { lookups: vec![], histories: vec![], audits: vec![] });
     let plan = if args.quick() {
         Plan { base_depth: 2, ext_depth: 2, chains: vec![(9, 0)], cache: CacheCfg::None, par: AzksParallelismConfig::disabled() }
